@@ -144,6 +144,7 @@ type Explorer struct {
 	synced int
 	nondet []*Term
 	hidden int // environment-stub variables of this path (not on the replay tape)
+	hvars  []*Term
 	model  *Model
 	cache  map[int]evalVal
 	kf     []string
@@ -183,7 +184,7 @@ func (x *Explorer) feasible(c *Term) string {
 	x.s.Assert(c)
 	r := x.s.Check()
 	if r == "sat" {
-		x.model = x.s.Model(x.nondet)
+		x.model = x.s.Model(x.modelVars())
 		x.cache = map[int]evalVal{}
 	}
 	x.s.Pop(1)
@@ -250,7 +251,7 @@ func (x *Explorer) concretize(t *Term, sg bool, what string, lo, hi int64, over 
 				}
 				break
 			}
-			m := x.s.Model(x.nondet)
+			m := x.s.Model(x.modelVars())
 			v := x.b.Eval(t, m, map[int]evalVal{})
 			if sg {
 				ev.Alts = append(ev.Alts, sext(v.u, w))
@@ -349,7 +350,7 @@ func (x *Explorer) report(kind, where, fn, msg string, cond *Term) {
 	r := x.s.Check()
 	var m *Model
 	if r == "sat" {
-		m = x.s.Model(x.nondet)
+		m = x.s.Model(x.modelVars())
 	}
 	x.s.Pop(1)
 	if r != "sat" {
@@ -459,7 +460,18 @@ func (x *Explorer) newNondet(s Sort) *Term {
 // not part of the replay tape: the native run gets the real library's answer, which is one of the stub's answers.
 func (x *Explorer) newHidden(s Sort) *Term {
 	x.hidden++
-	return x.b.Var(fmt.Sprintf("h%d_%d", x.hidden, s.W), s)
+	t := x.b.Var(fmt.Sprintf("h%d_%d", x.hidden, s.W), s)
+	x.hvars = append(x.hvars, t)
+	x.model = nil // the cached model does not know this variable
+	return t
+}
+
+// modelVars: every solver variable of the path (tape variables first, then environment-stub variables).
+func (x *Explorer) modelVars() []*Term {
+	if len(x.hvars) == 0 {
+		return x.nondet
+	}
+	return append(append([]*Term{}, x.nondet...), x.hvars...)
 }
 
 // known marks entry into a known-finding region (fork on cond).
@@ -487,6 +499,8 @@ func (x *Explorer) runItem(fn *ssa.Function, item []Event) {
 	for {
 		x.events = x.events[:0]
 		x.nondet = nil
+		x.hidden = 0
+		x.hvars = nil
 		x.model = nil
 		x.kf = nil
 		x.obs = nil
@@ -598,7 +612,7 @@ func (x *Explorer) sample() {
 	if r != "sat" {
 		return
 	}
-	m := x.s.Model(x.nondet)
+	m := x.s.Model(x.modelVars())
 	s := Sample{Tape: x.tapeFrom(m), Obs: x.obsUnder(m), Events: len(x.events)}
 	x.sh.mu.Lock()
 	if len(x.sh.samples) < x.sh.maxSamples {
